@@ -448,7 +448,12 @@ impl Run {
                 }
             }
             14 => {
-                for (a, b, _) in self.task_ios[p].iter() {
+                // held-back substream closes complete: all of them, or (arg != 0) all but those of the newest task
+                let n = self.task_ios[p].len();
+                for (i, (a, b, _)) in self.task_ios[p].iter().enumerate() {
+                    if arg != 0 && i + 1 == n {
+                        continue;
+                    }
                     a.0.lock().unwrap().shutdown_gated = false;
                     b.0.lock().unwrap().shutdown_gated = false;
                 }
@@ -668,7 +673,7 @@ fn peer_script(rng: &mut Rng, auto_accept: bool, slow: bool) -> Vec<(u64, u64)> 
             }
             continue;
         }
-        match rng.below(6) {
+        match rng.below(7) {
             0 => s.push((11, 0)),
             1 => s.push((13, 0)),
             2 => {
@@ -676,7 +681,24 @@ fn peer_script(rng: &mut Rng, auto_accept: bool, slow: bool) -> Vec<(u64, u64)> 
                 connected = false;
             }
             3 if slow => s.extend([(13, 1), (1, 0), (0, 0), (2, 0), (14, 0), (6, 1)]),
-            4 if slow => s.extend([(16, 0), (11, 0), (2, 0), (6, 1), (8, 1), (6, 1), (3, 0), (7, 1), (14, 0)]),
+            4 if slow => {
+                s.extend([(16, 0), (11, 0), (2, 0), (6, 1), (8, 1), (6, 1), (3, 0), (7, 1)]);
+                // the user may keep a clone of the new stream's sink while the old task finishes, and ask again
+                let keep = rng.chance(50);
+                if keep {
+                    s.push((20, 0));
+                }
+                s.push((14, 0));
+                if keep {
+                    s.push((rng.pick(&[10u64, 1, 21, 17]), 0));
+                }
+            }
+            // the remote closes slowly, the user closes, a new stream is set up and closed slowly by the remote too;
+            // then only the OLD task finishes: its shutdown notice meets the new stream whose task is shutting down
+            5 if slow => s.extend([
+                (13, 1), (11, 0), (2, 0), (6, 1), (8, 1), (6, 1), (3, 0), (7, 1), (13, 1), (14, 1), (2, 0), (6, 1), (8, 1),
+                (6, 1), (3, 0), (7, 1), (14, 0),
+            ]),
             _ => s.extend([(13, 0), (2, 0)]),
         }
     }
